@@ -9,6 +9,7 @@ import (
 	"math/big"
 	"strings"
 	"testing"
+	"time"
 
 	"github.com/zmap/zcrypto/tls"
 	"verifsim/kit"
@@ -27,6 +28,10 @@ type c28Scenario struct {
 	CutAt  int    `json:"cut_at,omitempty"` // >0: the server→client stream is cut (FIN) at this offset of the first connection
 	Decline bool  `json:"decline,omitempty"` // the second connection meets a server that has tickets disabled: the offered ticket is declined
 	SCTs   int    `json:"scts,omitempty"`    // number of SCTs the server attaches (well-formed, unknown version, truncated, ...)
+	// StubResume > 0: after the first connection the cached TLS 1.2 session is resumed against the harness's
+	// reference server (c28_stub12.go): 1 = zero-length NewSessionTicket, 2 = fresh ticket, 3 = no ticket extension
+	StubResume int    `json:"stub_resume,omitempty"`
+	StubHint   uint32 `json:"stub_hint,omitempty"`
 	Tape   []int  `json:"tape,omitempty"`
 }
 
@@ -64,6 +69,21 @@ func genC28(seed uint64, tier string) any {
 	if r.Chance(1, 6) {
 		sc.CutAt = 1 + r.Intn(5000)
 		sc.Resume = false
+	}
+	if r.Chance(1, 8) {
+		// a TLS 1.2 AES-GCM session, resumed against a conforming server that is not zcrypto's
+		sc.StubResume = 1 + r.Intn(3)
+		sc.StubHint = []uint32{0, 1, 300, 7200, 604800, 0xffffffff}[r.Intn(6)]
+		sc.CutAt, sc.Resume, sc.Decline = 0, false, false
+		suite := []uint16{0xc02f, 0xc030, 0x009c, 0x009d}[r.Intn(4)]
+		if sc.Server.KeyKind != "rsa" && sc.Server.KeyKind != "" {
+			suite = []uint16{0xc02b, 0xc02c}[r.Intn(2)]
+		}
+		for _, e := range []*EndCfg{&sc.Client, &sc.Server} {
+			e.MinVersion, e.MaxVersion, e.Suites, e.Curves, e.EMS, e.NoTickets = vTLS12, vTLS12, []uint16{suite}, nil, false, false
+		}
+		sc.Client.Cache, sc.Client.ForceSuites, sc.Client.SigHashes = true, false, nil
+		sc.Server.KeyKind2 = ""
 	}
 	return sc
 }
@@ -208,6 +228,42 @@ func execC28(t *testing.T, scAny any, keepLog bool) *Outcome {
 			co2 := startConn(run, "b", ccfg, scfg2, sc.Net, nil)
 			s.Run()
 			o.Fail = c28Check(sc, co2, keylog.Bytes(), presented, o)
+		}
+		if o.Fail == nil && sc.StubResume > 0 && co.CErr == nil && co.SErr == nil {
+			if cur := cache.cur[serverName]; cur != nil {
+				vers, suite := tls.VerifSessionParams(cur)
+				master, _ := tls.VerifSessionSecret(cur)
+				presented := tls.VerifSessionTicket(cur)
+				if vers == vTLS12 && suiteByID[suite] != nil && suiteByID[suite].Class == ccAESGCM && len(presented) > 0 {
+					cn, sn := s.Pipe("rc", "rs", sc.Net.params(), sc.Net.params())
+					co2 := &connOutcome{CNet: cn, SNet: sn, Client: tls.Client(cn, ccfg)}
+					var st *stub12Result
+					s.Go("r-client", func() {
+						c := co2.Client
+						c.SetDeadline(s.Now().Add(30 * time.Second))
+						co2.CErr = c.Handshake()
+						co2.CState = c.ConnectionState()
+						c.Close()
+					})
+					s.Go("r-stub", func() {
+						st = runStub12(s, sn, vers, suite, master, sc.StubResume-1, sc.StubHint, run.R.Derive("stub12"))
+					})
+					s.Run()
+					switch {
+					case st == nil || st.Err != nil:
+						o.count("probe.stub_resume_not_started", 1)
+					case co2.CErr != nil || !co2.CState.DidResume:
+						// not the log's business, but the scenario proves nothing then
+						o.count("probe.stub_resume_refused_by_client", 1)
+					default:
+						o.count(fmt.Sprintf("fault.resumed_by_reference_server_mode_%d", sc.StubResume), 1)
+						o.Fail = c28Check(sc, co2, keylog.Bytes(), presented, o)
+						if lt := co2.Client.GetHandshakeLog().SessionTicket; o.Fail == nil && st.SentNST && lt == nil {
+							o.Fail = Failf("c28.ticket", "a NewSessionTicket was received on a resumed handshake but the log has no session ticket", "hint %d, %d-byte ticket", st.NSTHint, len(st.NSTTicket))
+						}
+					}
+				}
+			}
 		}
 		for _, p := range s.Panics() {
 			o.Fail = Failf("c28.panic", panicSite(p.Stack), "task %s panicked: %v\n%s", p.Name, p.PanicVal, p.Stack)
@@ -788,7 +844,8 @@ func init() {
 		Stub:   []string{"transport", "clock", "entropy", "PKI", "harness transcript parser and reference PRF"},
 		Assume: []string{"for a HelloRetryRequest flow the logged ServerHello may be either the HelloRetryRequest or the final ServerHello", "algorithm names are compared by family (rsa/pkcs1v15/rsapss = RSA) and hash name; 'intrinsic' is accepted for RSA-PSS"},
 		FaultKinds: []string{"fault.connection_cut", "probe.clienthello_compared", "probe.serverhello_compared", "probe.certs_compared", "probe.skx_compared", "probe.skx_sigalg_compared", "probe.ckx_compared", "probe.ticket_compared",
-			"probe.clienthello_ticket_logged", "probe.master_secret_vs_keylog", "probe.master_from_premaster", "probe.finished_compared", "probe.resumed_log_checked", "probe.scts_compared", "fault.ticket_declined_by_server"},
+			"probe.clienthello_ticket_logged", "probe.master_secret_vs_keylog", "probe.master_from_premaster", "probe.finished_compared", "probe.resumed_log_checked", "probe.scts_compared", "fault.ticket_declined_by_server",
+			"fault.resumed_by_reference_server_mode_1", "fault.resumed_by_reference_server_mode_2", "fault.resumed_by_reference_server_mode_3", "probe.stub_resume_refused_by_client", "probe.stub_resume_not_started"},
 		NotInjected: "adversarial wire faults are not injected (the log of a corrupted handshake is exercised for panics under C32); only a clean cut of the connection",
 		Gen:         genC28, New: func() any { return &c28Scenario{} }, Exec: execC28, Shrink: shrinkC28,
 		QuickRuns: 8000, ThoroughRuns: 600000,
